@@ -259,6 +259,32 @@ def _explore(out, tier, seed, facts, replay):
                                           "(stored levels %r) over the cases where all needed values are present gives %r" % (kind, lo_req, hi_req, axis_.name(), k_, float(g_), stored, w_),
                                           {"metric": kind, "requested_levels": [lo_req, hi_req], "stored_levels": stored, "dataset": spec_q, "quantile_columns": qarr.tolist(), "axis": axis_.name(), "slice": k_})
                             break
+    # PIT at a discrete probability mass of the variable (x0 / x1): the value is drawn from [0, pit] when the observation equals
+    # x0, from [pit, 1] when it equals x1, and is the stored value everywhere else
+    import verif.variable
+    for x0_, x1_ in ((0.0, None), (None, 10.0), (0.0, 10.0), (0.0, 0.0)):
+        for rep_ in range(3 if tier == "quick" else 20):
+            n_ = 12
+            ob_ = [rng.choice([0.0, 10.0, 2.5, 5.0, None]) for _ in range(n_)]
+            pi_ = [rng.choice([0.125, 0.25, 0.5, 0.75, 0.875, 0.0, 1.0]) for _ in range(n_)]
+            spec_p = {"times": [86400 * k for k in range(n_)], "leads": [0.0], "locs": [[1, 0.0, 0.0, 0.0]],
+                      "fields": {"obs": [[[v]] for v in ob_], "fcst": [[[1.0]] for _ in ob_], "pit": [[[v]] for v in pi_]}}
+            inp_p = datagen.mem_input(spec_p, "pit")
+            inp_p.variable = verif.variable.Variable("Precip", "mm", x0=x0_, x1=x1_)
+            try:
+                got_p = np.asarray(verif.data.Data([inp_p]).get_scores(verif.field.Pit(), 0), float).flatten()
+            except Exception as e:
+                out.violation("pit-mass-exception", "Pit field with x0=%r x1=%r raised %s: %s" % (x0_, x1_, type(e).__name__, e), {"x0": x0_, "x1": x1_, "obs": ob_, "pit": pi_})
+                continue
+            for o_, p_, g_ in zip(ob_, pi_, got_p):
+                if o_ is None:
+                    continue
+                at0, at1 = x0_ is not None and o_ == x0_, x1_ is not None and o_ == x1_
+                lo_, hi_ = (0.0 if at0 else p_), (1.0 if at1 else p_)
+                if not (lo_ - 1e-12 <= g_ <= hi_ + 1e-12):
+                    out.violation("pit-mass", "variable with x0=%r x1=%r: a case with observation %r and stored PIT %r gets PIT %r; it must lie in [%r, %r]" % (x0_, x1_, o_, p_, float(g_), lo_, hi_),
+                                  {"x0": x0_, "x1": x1_, "obs": ob_, "pit": pi_})
+                    break
     # ensemble-derived probabilities and quantiles through Data
     nens = 40 if tier == "quick" else 400
     ens_cases = []
